@@ -567,6 +567,10 @@ class Graph:
                     self.where[nid].append((bid, i))
                 self._edge((bid, i), (bid, i + 1), None)
             succs = b.get("succ") or []
+            if b.get("noreturn"):
+                # a call to a noreturn function (abort, __assert_fail, std::exit): the process ends here; clang links such a
+                # block to the function's exit, which is not a normal return
+                succs = []
             two_way = b.get("term") in ("IfStmt", "WhileStmt", "DoStmt", "ForStmt", "CXXForRangeStmt",
                                         "ConditionalOperator", "BinaryOperator", "BinaryConditionalOperator") and len(succs) == 2
             for j, s in enumerate(succs):
